@@ -1,3 +1,649 @@
+/-
+C03 — exported native value re-imports to an equal element.
+
+`reimport`: for every well-formed schema (Dict / SparseDict under every policy, List / Array,
+scalars, JoinedString, DateYYYYMMDD as table-driven leaf-likes), every native input `x`:
+if `set(x)` returned True for a fresh element `e`, then `set(e.value)` on another fresh element of
+the same schema returns True and builds **the same element state** — hence equal `.value`, `.u`,
+`==` and `flatten()`.
+
+Hypotheses on the leaf-likes (the subjects of C04 / C18, checked there and by correspondence):
+* `LeafIdem`: a leaf that adapted `x` to the value `v` adapts `v` to the same value, text and parts;
+* `BlankOk`: a fresh leaf re-set with its own (fresh) value stays as it is.
+The negation witness `reimport_needs_leafIdem` shows what happens without (KF-C03-a).
+-/
 import Flatland.C03
 namespace Flatland.C03.Proofs
+open Flatland.C03
+
+def LeafIdem (env : Env) : Prop :=
+  ∀ k x, (env.adapt k x).1 = true → env.adapt k (env.adapt k x).2.1 = (true, (env.adapt k x).2)
+
+def BlankOk (env : Env) : Prop :=
+  ∀ k, env.adapt k (env.blankLeaf k).1 = (true, env.blankLeaf k)
+
+/-- an element that its own exported value rebuilds -/
+def Stable (env : Env) (s : Schema) (e : Elem) : Prop := setNative env s (value e) = .ok (e, true)
+
+def namesOf : List Schema → List (Option Str)
+  | [] => []
+  | f :: fs => f.name :: namesOf fs
+
+mutual
+/-- Dict fields are named and distinct; a SparseDict is not combined with the 'strict' policy (a
+    blank sparse member could never satisfy it) -/
+def wf : Schema → Bool
+  | .leaf .. => true
+  | .dict _ _ mode policy fields =>
+    wfL fields && (namesOf fields).all Option.isSome && decide (namesOf fields).Nodup &&
+      (decide (mode = .dense) || decide (policy ≠ .strict))
+  | .seq _ _ member => wf member
+def wfL : List Schema → Bool
+  | [] => true
+  | f :: fs => wf f && wfL fs
+end
+
+/-! ### small facts -/
+
+theorem fieldNames_eq (fs : List Schema) (h : (namesOf fs).all Option.isSome = true) :
+    (fieldNames fs).map some = namesOf fs := by
+  induction fs with
+  | nil => rfl
+  | cons f fs ih =>
+    simp only [namesOf, List.all_cons, Bool.and_eq_true] at h
+    simp only [fieldNames, namesOf, List.map_cons, ih h.2]
+    cases hn : f.name with
+    | none => simp [hn] at h
+    | some x => simp
+
+theorem setOne_of_mem (env : Env) (fs : List Schema) (hn : (namesOf fs).Nodup) (f : Schema) (hf : f ∈ fs)
+    (key : Str) (hk : f.name = some key) (v : Native) :
+    setOne env fs key v = some (setNative env f v) := by
+  induction fs with
+  | nil => simp at hf
+  | cons g gs ih =>
+    simp only [namesOf, List.nodup_cons] at hn
+    unfold setOne
+    rcases List.mem_cons.mp hf with rfl | hin
+    · simp [hk]
+    · have hne : g.name ≠ some key := by
+        intro heq
+        apply hn.1
+        rw [heq, ← hk]
+        clear ih hn hf
+        induction gs with
+        | nil => simp at hin
+        | cons a as iha =>
+          rcases List.mem_cons.mp hin with rfl | h'
+          · simp [namesOf]
+          · simp [namesOf, iha h']
+      simp only [hne, if_false]
+      exact ih hn.2 hin
+
+theorem setOne_some_key (env : Env) (fs : List Schema) (key : Str) (v : Native) (r)
+    (h : setOne env fs key v = some r) : key ∈ fieldNames fs := by
+  induction fs with
+  | nil => simp [setOne] at h
+  | cons g gs ih =>
+    unfold setOne at h
+    split at h
+    · rename_i hk; simp [fieldNames, hk]
+    · simp [fieldNames, ih h]
+
+theorem lookup_none_of_not_mem (key : Str) (ms : List (Str × Elem)) (h : key ∉ ms.map (·.1)) :
+    lookup key ms = none := by
+  induction ms with
+  | nil => rfl
+  | cons p ps ih =>
+    obtain ⟨k, e⟩ := p
+    simp only [List.map_cons, List.mem_cons, not_or] at h
+    simp only [lookup, Ne.symm h.1, if_false]
+    exact ih h.2
+
+theorem lookup_isSome_of_mem (key : Str) (ms : List (Str × Elem)) (h : key ∈ ms.map (·.1)) :
+    (lookup key ms).isSome = true := by
+  induction ms with
+  | nil => simp at h
+  | cons p ps ih =>
+    obtain ⟨k, e⟩ := p
+    simp only [lookup]
+    split
+    · rfl
+    · rename_i hk
+      simp only [List.map_cons, List.mem_cons] at h
+      rcases h with h | h
+      · exact absurd h.symm hk
+      · exact ih h
+
+theorem replace_keys (key : Str) (e : Elem) (ms : List (Str × Elem)) :
+    (replace key e ms).map (·.1) = ms.map (·.1) := by
+  induction ms with
+  | nil => rfl
+  | cons p ps ih =>
+    obtain ⟨k, x⟩ := p
+    unfold replace
+    split <;> simp [ih]
+
+theorem mem_replace (key : Str) (e : Elem) (ms : List (Str × Elem)) (p : Str × Elem)
+    (h : p ∈ replace key e ms) : p = (key, e) ∨ p ∈ ms := by
+  induction ms with
+  | nil => simp [replace] at h
+  | cons q qs ih =>
+    obtain ⟨k, x⟩ := q
+    unfold replace at h
+    split at h
+    · rename_i hk
+      rcases List.mem_cons.mp h with h | h
+      · left; rw [h, hk]
+      · right; exact List.mem_cons_of_mem _ h
+    · rcases List.mem_cons.mp h with h | h
+      · right; rw [h]; simp
+      · rcases ih h with h' | h'
+        · left; exact h'
+        · right; exact List.mem_cons_of_mem _ h'
+
+theorem valueMembers_keys (ms : List (Str × Elem)) :
+    (value.valueMembers ms).map (·.1) = ms.map (·.1) := by
+  induction ms with
+  | nil => rfl
+  | cons p ps ih => obtain ⟨k, e⟩ := p; simp [value.valueMembers, ih]
+
+theorem valueMembers_getElem (ms : List (Str × Elem)) (j : Nat) (h : j < ms.length)
+    (h' : j < (value.valueMembers ms).length) :
+    (value.valueMembers ms)[j] = ((ms[j]).1, value (ms[j]).2) := by
+  induction ms generalizing j with
+  | nil => simp at h
+  | cons p ps ih =>
+    obtain ⟨k, e⟩ := p
+    cases j with
+    | zero => simp [value.valueMembers]
+    | succ i =>
+      simp only [value.valueMembers, List.getElem_cons_succ]
+      exact ih i (by simpa using h) _
+
+theorem lookup_skip_pre (key : Str) (b : Elem) (pre rest : List (Str × Elem))
+    (h : key ∉ pre.map (·.1)) : lookup key (pre ++ (key, b) :: rest) = some b := by
+  induction pre with
+  | nil => simp [lookup]
+  | cons q qs ih =>
+    obtain ⟨k, x⟩ := q
+    simp only [List.map_cons, List.mem_cons, not_or] at h
+    simp only [List.cons_append, lookup, Ne.symm h.1, if_false]
+    exact ih h.2
+
+theorem replace_skip_pre (key : Str) (b e : Elem) (pre rest : List (Str × Elem))
+    (h : key ∉ pre.map (·.1)) :
+    replace key e (pre ++ (key, b) :: rest) = pre ++ (key, e) :: rest := by
+  induction pre with
+  | nil => simp [replace]
+  | cons q qs ih =>
+    obtain ⟨k, x⟩ := q
+    simp only [List.map_cons, List.mem_cons, not_or] at h
+    simp only [List.cons_append, replace, Ne.symm h.1, if_false]
+    rw [ih h.2]
+
+/-! ### the invariant of the members a `Dict.set` builds -/
+
+/-- `ms` was grown from the blank members `B`: distinct keys, the blank members' keys first and in
+    place, and every member is rebuilt by its own exported value -/
+structure Grown (env : Env) (fields : List Schema) (B ms : List (Str × Elem)) : Prop where
+  nodup : (ms.map (·.1)).Nodup
+  pre : (ms.map (·.1)).take B.length = B.map (·.1)
+  stable : ∀ p ∈ ms, setOne env fields p.1 (value p.2) = some (.ok (p.2, true))
+
+theorem grown_setPairs (env : Env) (fields : List Schema) (B : List (Str × Elem))
+    (hstep : ∀ key v e, setOne env fields key v = some (.ok (e, true)) →
+      setOne env fields key (value e) = some (.ok (e, true))) :
+    ∀ (kvs : List (Str × Native)) (cur ms : List (Str × Elem)), Grown env fields B cur →
+      setPairs env fields cur kvs = .ok (ms, true) → Grown env fields B ms := by
+  intro kvs
+  induction kvs with
+  | nil =>
+    intro cur ms hg h
+    simp only [setPairs, Except.ok.injEq, Prod.mk.injEq, and_true] at h
+    rw [← h]; exact hg
+  | cons kv rest ih =>
+    intro cur ms hg h
+    obtain ⟨key, v⟩ := kv
+    simp only [setPairs] at h
+    cases hso : setOne env fields key v with
+    | none => simp only [hso] at h; exact ih cur ms hg h
+    | some r =>
+      simp only [hso] at h
+      cases r with
+      | error err => simp at h
+      | ok ef =>
+        obtain ⟨e, f⟩ := ef
+        simp only at h
+        split at h
+        · rename_i ms'' f' hrest
+          simp only [Except.ok.injEq, Prod.mk.injEq, Bool.and_eq_true] at h
+          obtain ⟨hms, hf, hf'⟩ := h
+          subst hms; subst hf; subst hf'
+          apply ih _ _ _ hrest
+          have hst := hstep key v e hso
+          cases hl : lookup key cur with
+          | some old =>
+            simp only
+            refine ⟨by rw [replace_keys]; exact hg.nodup, by rw [replace_keys]; exact hg.pre, ?_⟩
+            intro p hp
+            rcases mem_replace key e cur p hp with rfl | hp
+            · exact hst
+            · exact hg.stable p hp
+          | none =>
+            simp only
+            have hnot : key ∉ cur.map (·.1) := by
+              intro hin
+              have := lookup_isSome_of_mem key cur hin
+              rw [hl] at this; cases this
+            refine ⟨?_, ?_, ?_⟩
+            · simp only [List.map_append, List.map_cons, List.map_nil]
+              apply List.nodup_append.mpr
+              refine ⟨hg.nodup, by simp, ?_⟩
+              intro a ha b hb
+              simp only [List.mem_singleton] at hb
+              subst hb
+              intro heq; subst heq; exact hnot ha
+            · have hlen : B.length ≤ (cur.map (·.1)).length := by
+                have := congrArg List.length hg.pre
+                simp only [List.length_take, List.length_map] at this ⊢
+                omega
+              simp only [List.map_append]
+              rw [List.take_append_of_le_length hlen]
+              exact hg.pre
+            · intro p hp
+              rcases List.mem_append.mp hp with hp | hp
+              · exact hg.stable p hp
+              · simp only [List.mem_singleton] at hp; subst hp; exact hst
+        · simp at h
+
+/-- re-importing the exported members of a grown mapping rebuilds it, pair by pair -/
+theorem rebuild (env : Env) (fields : List Schema) (B ms : List (Str × Elem))
+    (hg : Grown env fields B ms) :
+    ∀ (n j : Nat), j + n = ms.length →
+      setPairs env fields (ms.take j ++ B.drop j) ((value.valueMembers ms).drop j) = .ok (ms, true) := by
+  have hBlen : B.length ≤ ms.length := by
+    have := congrArg List.length hg.pre
+    simp only [List.length_take, List.length_map] at this
+    omega
+  intro n
+  induction n with
+  | zero =>
+    intro j hj
+    have hjl : j = ms.length := by omega
+    subst hjl
+    have h1 : (value.valueMembers ms).drop ms.length = [] := by
+      apply List.drop_eq_nil_of_le
+      have := congrArg List.length (valueMembers_keys ms)
+      simp only [List.length_map] at this; omega
+    have h2 : B.drop ms.length = [] := List.drop_eq_nil_of_le hBlen
+    simp [h1, h2, setPairs]
+  | succ n ih =>
+    intro j hj
+    have hjlt : j < ms.length := by omega
+    have hvlen : (value.valueMembers ms).length = ms.length := by
+      have := congrArg List.length (valueMembers_keys ms)
+      simpa using this
+    -- the j-th exported pair
+    have hdrop : (value.valueMembers ms).drop j
+        = ((ms[j]).1, value (ms[j]).2) :: (value.valueMembers ms).drop (j + 1) := by
+      rw [← List.getElem_cons_drop (h := by omega)]
+      rw [valueMembers_getElem ms j hjlt (by omega)]
+    rw [hdrop]
+    simp only [setPairs]
+    have hst := hg.stable ms[j] (List.getElem_mem hjlt)
+    rw [hst]
+    simp only
+    have hkeyj : (ms.map (·.1))[j]'(by simpa using hjlt) = (ms[j]).1 := by simp
+    -- the key is not among the first j members
+    have hnotin : (ms[j]).1 ∉ (ms.take j).map (·.1) := by
+      intro hin
+      have hnd := hg.nodup
+      rw [← List.take_append_drop j (ms.map (·.1))] at hnd
+      have hd := (List.nodup_append.mp hnd).2.2
+      have h1 : (ms[j]).1 ∈ (ms.map (·.1)).take j := by rw [← List.map_take]; exact hin
+      have h2 : (ms[j]).1 ∈ (ms.map (·.1)).drop j := by
+        rw [← List.getElem_cons_drop (h := by simpa using hjlt)]
+        simp
+      exact hd _ h1 _ h2 rfl
+    have hnext : ms.take (j + 1) = ms.take j ++ [ms[j]] := by
+      rw [List.take_succ_eq_append_getElem hjlt]
+    by_cases hjB : j < B.length
+    · -- a blank member sits at this position: it is replaced
+      have hBj : (B[j]).1 = (ms[j]).1 := by
+        have h1 : ((ms.map (·.1)).take B.length)[j]'(by simp; omega) = (B.map (·.1))[j]'(by simpa using hjB) := by
+          simp only [hg.pre]
+        simp only [List.getElem_take, List.getElem_map] at h1
+        exact h1.symm
+      have hBdrop : B.drop j = ((ms[j]).1, (B[j]).2) :: B.drop (j + 1) := by
+        rw [← List.getElem_cons_drop (h := hjB), ← hBj]
+      rw [hBdrop, lookup_skip_pre _ _ _ _ hnotin]
+      simp only
+      have hrep : replace (ms[j]).1 (ms[j]).2 (ms.take j ++ ((ms[j]).1, (B[j]).2) :: B.drop (j + 1))
+          = ms.take (j + 1) ++ B.drop (j + 1) := by
+        rw [replace_skip_pre _ _ _ _ _ hnotin]
+        rw [hnext, List.append_assoc]
+        rfl
+      rw [hrep, ih (j + 1) (by omega)]
+      simp
+    · -- past the blank members: appended
+      have hBd : B.drop j = [] := List.drop_eq_nil_of_le (by omega)
+      have hBd' : B.drop (j + 1) = [] := List.drop_eq_nil_of_le (by omega)
+      rw [hBd, List.append_nil, lookup_none_of_not_mem _ _ hnotin]
+      simp only
+      have := ih (j + 1) (by omega)
+      rw [hBd', List.append_nil, hnext] at this
+      rw [this]
+      simp
+
+
+/-! ### blank members -/
+
+def blankMs (env : Env) (mode : DictMode) (fields : List Schema) : List (Str × Elem) :=
+  match mode with
+  | .dense => blankFields env fields
+  | .sparse => []
+  | .sparseReq => blankRequired env fields
+
+theorem blank_dict (env : Env) (n : Option Str) (o : Bool) (mode : DictMode) (policy : Policy)
+    (fields : List Schema) : blank env (.dict n o mode policy fields) = .dict (blankMs env mode fields) := by
+  cases mode <;> simp [blank, blankMs]
+
+theorem blankFields_keys (env : Env) (fs : List Schema) : (blankFields env fs).map (·.1) = fieldNames fs := by
+  induction fs with
+  | nil => rfl
+  | cons f fs ih => simp [blankFields, fieldNames, ih]
+
+theorem blankRequired_sublist (env : Env) (fs : List Schema) :
+    ((blankRequired env fs).map (·.1)).Sublist (fieldNames fs) := by
+  induction fs with
+  | nil => simp [blankRequired, fieldNames]
+  | cons f fs ih =>
+    unfold blankRequired
+    split
+    · exact List.Sublist.cons _ ih
+    · simp only [List.map_cons, fieldNames]; exact List.Sublist.cons₂ _ ih
+
+theorem mem_blankFields (env : Env) (fs : List Schema) (p : Str × Elem) (h : p ∈ blankFields env fs) :
+    ∃ f ∈ fs, p = (f.name.getD [], blank env f) := by
+  induction fs with
+  | nil => simp [blankFields] at h
+  | cons f fs ih =>
+    simp only [blankFields, List.mem_cons] at h
+    rcases h with rfl | h
+    · exact ⟨f, by simp, rfl⟩
+    · obtain ⟨g, hg, he⟩ := ih h; exact ⟨g, List.mem_cons_of_mem _ hg, he⟩
+
+theorem mem_blankRequired (env : Env) (fs : List Schema) (p : Str × Elem) (h : p ∈ blankRequired env fs) :
+    ∃ f ∈ fs, p = (f.name.getD [], blank env f) := by
+  induction fs with
+  | nil => simp [blankRequired] at h
+  | cons f fs ih =>
+    unfold blankRequired at h
+    split at h
+    · obtain ⟨g, hg, he⟩ := ih h; exact ⟨g, List.mem_cons_of_mem _ hg, he⟩
+    · rcases List.mem_cons.mp h with rfl | h
+      · exact ⟨f, by simp, rfl⟩
+      · obtain ⟨g, hg, he⟩ := ih h; exact ⟨g, List.mem_cons_of_mem _ hg, he⟩
+
+theorem nodup_of_nodup_map {α β} (f : α → β) (l : List α) (h : (l.map f).Nodup) : l.Nodup := by
+  induction l with
+  | nil => exact List.nodup_nil
+  | cons a as ih =>
+    simp only [List.map_cons, List.nodup_cons] at h ⊢
+    exact ⟨fun hin => h.1 (List.mem_map_of_mem hin), ih h.2⟩
+
+theorem fieldNames_nodup (fs : List Schema) (hs : (namesOf fs).all Option.isSome = true)
+    (hn : (namesOf fs).Nodup) : (fieldNames fs).Nodup := by
+  rw [← fieldNames_eq fs hs] at hn
+  exact nodup_of_nodup_map _ _ hn
+
+theorem name_getD (f : Schema) (fs : List Schema) (hs : (namesOf fs).all Option.isSome = true)
+    (hf : f ∈ fs) : f.name = some (f.name.getD []) := by
+  induction fs with
+  | nil => simp at hf
+  | cons g gs ih =>
+    simp only [namesOf, List.all_cons, Bool.and_eq_true] at hs
+    rcases List.mem_cons.mp hf with rfl | h
+    · cases hn : f.name with
+      | none => simp [hn] at hs
+      | some x => simp
+    · exact ih hs.2 h
+
+/-- blank members are a grown mapping as soon as each blank member is stable -/
+theorem grown_blank (env : Env) (mode : DictMode) (fields : List Schema)
+    (hs : (namesOf fields).all Option.isSome = true) (hn : (namesOf fields).Nodup)
+    (hst : ∀ f ∈ fields, Stable env f (blank env f)) :
+    Grown env fields (blankMs env mode fields) (blankMs env mode fields) := by
+  have hfn := fieldNames_nodup fields hs hn
+  refine ⟨?_, List.take_of_length_le (by simp), ?_⟩
+  · cases mode with
+    | dense => simp only [blankMs, blankFields_keys]; exact hfn
+    | sparse => simp [blankMs]
+    | sparseReq => exact List.Nodup.sublist (blankRequired_sublist env fields) hfn
+  · intro p hp
+    have : ∃ f ∈ fields, p = (f.name.getD [], blank env f) := by
+      cases mode with
+      | dense => exact mem_blankFields env fields p hp
+      | sparse => exact absurd hp (by simp [blankMs])
+      | sparseReq => exact mem_blankRequired env fields p hp
+    obtain ⟨f, hf, rfl⟩ := this
+    rw [setOne_of_mem env fields hn f hf _ (name_getD f fields hs hf)]
+    exact congrArg some (hst f hf)
+
+theorem policy_ok_of_grown (env : Env) (mode : DictMode) (policy : Policy) (fields : List Schema)
+    (hpol : mode = .dense ∨ policy ≠ .strict) (ms : List (Str × Elem))
+    (hg : Grown env fields (blankMs env mode fields) ms) :
+    policyRaise policy fields (ms.map (·.1)) = none := by
+  have hextra : (ms.map (·.1)).all (fun k => (fieldNames fields).contains k) = true := by
+    apply List.all_eq_true.mpr
+    intro k hk
+    obtain ⟨p, hp, rfl⟩ := List.mem_map.mp hk
+    have := setOne_some_key env fields p.1 _ _ (hg.stable p hp)
+    simpa using this
+  unfold policyRaise
+  simp only [hextra, Bool.not_true, Bool.false_eq_true, if_false]
+  cases policy with
+  | subset => rfl
+  | duck => rfl
+  | off => rfl
+  | strict =>
+    rcases hpol with hm | hp
+    · subst hm
+      have hpre := hg.pre
+      simp only [blankMs, blankFields_keys, List.length_map] at hpre
+      have hmiss : (fieldNames fields).all (fun n => (ms.map (·.1)).contains n) = true := by
+        apply List.all_eq_true.mpr
+        intro n hn
+        have : n ∈ (ms.map (·.1)).take (blankFields env fields).length := by rw [hpre]; exact hn
+        have := List.mem_of_mem_take this
+        simpa using this
+      simp only [hmiss, Bool.not_true, Bool.false_eq_true, if_false]
+    · exact absurd rfl hp
+
+/-! ### the theorem -/
+
+theorem setMembers_rebuild (env : Env) (member : Schema)
+    (hstep : ∀ x e, setNative env member x = .ok (e, true) → Stable env member e) :
+    ∀ (xs : List Native) (ms : List Elem), setMembers env member xs = .ok (ms, true) →
+      setMembers env member (value.valueList ms) = .ok (ms, true) := by
+  intro xs
+  induction xs with
+  | nil =>
+    intro ms h
+    simp only [setMembers, Except.ok.injEq, Prod.mk.injEq, and_true] at h
+    subst h; simp [value.valueList, setMembers]
+  | cons x xs ih =>
+    intro ms h
+    simp only [setMembers] at h
+    cases h1 : setNative env member x with
+    | error r => simp [h1] at h
+    | ok ef =>
+      obtain ⟨e, f⟩ := ef
+      simp only [h1] at h
+      cases h2 : setMembers env member xs with
+      | error r => simp [h2] at h
+      | ok esf =>
+        obtain ⟨es, f'⟩ := esf
+        simp only [h2, Except.ok.injEq, Prod.mk.injEq, Bool.and_eq_true] at h
+        obtain ⟨hms, hf, hf'⟩ := h
+        subst hms; subst hf; subst hf'
+        have hs := hstep x e h1
+        unfold Stable at hs
+        simp only [value.valueList, setMembers, hs, ih es h2, Bool.and_self]
+
+mutual
+theorem stable_blank (env : Env) (hb : BlankOk env) : ∀ s : Schema, wf s = true →
+    Stable env s (blank env s)
+  | .leaf n o k, _ => by
+    have := hb k
+    simp only [Stable, blank, value, setNative, this]
+  | .seq n o member, _ => by
+    simp [Stable, blank, value, value.valueList, setNative, iterate, setMembers]
+  | .dict n o mode policy fields, hw => by
+    simp only [wf, Bool.and_eq_true, Bool.or_eq_true, decide_eq_true_eq] at hw
+    obtain ⟨⟨⟨hwl, hsome⟩, hnd⟩, hpol⟩ := hw
+    have hg := grown_blank env mode fields hsome hnd (stable_blankL env hb fields hwl)
+    have hpolok := policy_ok_of_grown env mode policy fields hpol _ hg
+    have hreb := rebuild env fields _ _ hg (blankMs env mode fields).length 0 (by simp)
+    simp only [List.take_zero, List.nil_append, List.drop_zero] at hreb
+    simp only [Stable, blank_dict, value, setNative, toPairs, valueMembers_keys, hpolok, hreb]
+theorem stable_blankL (env : Env) (hb : BlankOk env) : ∀ fs : List Schema, wfL fs = true →
+    ∀ f ∈ fs, Stable env f (blank env f)
+  | [], _ => fun f hf => by simp at hf
+  | g :: gs, hw => by
+    simp only [wfL, Bool.and_eq_true] at hw
+    have h1 := stable_blank env hb g hw.1
+    have h2 := stable_blankL env hb gs hw.2
+    intro f hf
+    rcases List.mem_cons.mp hf with rfl | h
+    · exact h1
+    · exact h2 f h
+end
+
+mutual
+theorem stable_set (env : Env) (hi : LeafIdem env) (hb : BlankOk env) : ∀ (s : Schema), wf s = true →
+    ∀ (x : Native) (e : Elem), setNative env s x = .ok (e, true) → Stable env s e
+  | .leaf n o k, _, x, e, h => by
+    simp only [setNative, Except.ok.injEq, Prod.mk.injEq] at h
+    obtain ⟨he, hf⟩ := h
+    subst he
+    have := hi k x hf
+    simp only [Stable, value, setNative, this]
+  | .seq n o member, hw, x, e, h => by
+    simp only [wf] at hw
+    simp only [setNative] at h
+    cases hit : iterate x with
+    | none => simp [hit] at h
+    | some xs =>
+      simp only [hit] at h
+      cases hm : setMembers env member xs with
+      | error r => cases r <;> simp [hm] at h
+      | ok msf =>
+        obtain ⟨ms, f⟩ := msf
+        simp only [hm, Except.ok.injEq, Prod.mk.injEq] at h
+        obtain ⟨he, hf⟩ := h
+        subst he; subst hf
+        have := setMembers_rebuild env member (fun x e hx => stable_set env hi hb member hw x e hx) xs ms hm
+        simp only [Stable, value, setNative, iterate, this]
+  | .dict n o mode policy fields, hw, x, e, h => by
+    have hw0 := hw
+    simp only [wf, Bool.and_eq_true, Bool.or_eq_true, decide_eq_true_eq] at hw
+    obtain ⟨⟨⟨hwl, hsome⟩, hnd⟩, hpol⟩ := hw
+    simp only [setNative, blank_dict] at h
+    cases htp : toPairs x with
+    | none => simp [htp] at h
+    | some kvs =>
+      simp only [htp] at h
+      cases hpr : policyRaise policy fields (kvs.map (·.1)) with
+      | some r => simp [hpr] at h
+      | none =>
+        simp only [hpr] at h
+        cases hsp : setPairs env fields (blankMs env mode fields) kvs with
+        | error r => simp [hsp] at h
+        | ok msf =>
+          obtain ⟨ms, f⟩ := msf
+          simp only [hsp, Except.ok.injEq, Prod.mk.injEq] at h
+          obtain ⟨he, hf⟩ := h
+          subst he; subst hf
+          have hg0 := grown_blank env mode fields hsome hnd (stable_blankL env hb fields hwl)
+          have hg := grown_setPairs env fields _ (stable_setOne env hi hb fields hwl) kvs _ ms hg0 hsp
+          have hpolok := policy_ok_of_grown env mode policy fields hpol _ hg
+          have hreb := rebuild env fields _ _ hg ms.length 0 (by simp)
+          simp only [List.take_zero, List.nil_append, List.drop_zero] at hreb
+          simp only [Stable, blank_dict, value, setNative, toPairs, valueMembers_keys, hpolok, hreb]
+theorem stable_setOne (env : Env) (hi : LeafIdem env) (hb : BlankOk env) : ∀ (fs : List Schema),
+    wfL fs = true → ∀ key v e, setOne env fs key v = some (.ok (e, true)) →
+      setOne env fs key (value e) = some (.ok (e, true))
+  | [], _, key, v, e, h => by simp [setOne] at h
+  | g :: gs, hw, key, v, e, h => by
+    simp only [wfL, Bool.and_eq_true] at hw
+    unfold setOne at h ⊢
+    split
+    · rename_i hk
+      simp only [hk, if_true, Option.some.injEq] at h
+      exact congrArg some (stable_set env hi hb g hw.1 v e h)
+    · rename_i hk
+      simp only [hk, if_false] at h
+      exact stable_setOne env hi hb gs hw.2 key v e h
+end
+
+/-- **C03.**  If `set(x)` reported full adaptation for a fresh element `e`, then a fresh element of
+    the same schema set with `e.value` reports full adaptation and is in the very same state —
+    equal `.value`, `.u`, `==`, `flatten()` and everything else a state determines. -/
+theorem reimport (env : Env) (hi : LeafIdem env) (hb : BlankOk env) (s : Schema) (hw : wf s = true)
+    (x : Native) (e : Elem) (h : setNative env s x = .ok (e, true)) :
+    setNative env s (value e) = .ok (e, true) :=
+  stable_set env hi hb s hw x e h
+
+/-- in particular the exported values agree -/
+theorem reimport_value (env : Env) (hi : LeafIdem env) (hb : BlankOk env) (s : Schema) (hw : wf s = true)
+    (x : Native) (e : Elem) (h : setNative env s x = .ok (e, true)) :
+    ∃ e', setNative env s (value e) = .ok (e', true) ∧ value e' = value e :=
+  ⟨e, reimport env hi hb s hw x e h, rfl⟩
+
+/-! ### non-vacuity and the need for the leaf hypothesis -/
+
+/-- a toy leaf table: texts are kept as they are; anything else is rejected -/
+def exEnv : Env :=
+  { adapt := fun _ x => match x with
+      | .text s => (true, .text s, s, [])
+      | .none => (true, .none, [], [])
+      | _ => (false, .none, [], [])
+    blankLeaf := fun _ => (.none, [], []) }
+
+theorem exEnv_idem : LeafIdem exEnv := by
+  intro k x h
+  cases x <;> simp_all [exEnv]
+
+theorem exEnv_blank : BlankOk exEnv := by intro k; rfl
+
+def exSchema : Schema :=
+  .dict none false .sparse .subset
+    [.leaf (some "a".toList) false 0, .seq (some "l".toList) false (.leaf none false 0)]
+
+/-- the premises of `reimport` are met by a partially specified SparseDict holding a list -/
+example : setNative exEnv exSchema (.dict [("l".toList, .list [.text "x".toList, .none])])
+      = .ok (.dict [("l".toList, .seq [.leaf (.text "x".toList) "x".toList [], .leaf .none [] []])], true)
+    ∧ wf exSchema = true := by
+  refine ⟨?_, by decide⟩
+  simp [exSchema, setNative, toPairs, policyRaise, fieldNames, Schema.name, blank, setPairs, setOne,
+    lookup, iterate, setMembers, exEnv]
+
+/-- KF-C03-a in the model: a leaf whose value does not re-adapt to itself (a pruning JoinedString
+    holding an empty member) breaks the re-import — `LeafIdem` is needed. -/
+def badEnv : Env :=
+  { adapt := fun _ x => match x with
+      | .list _ => (true, .text "a,,b".toList, "a,,b".toList, ["a".toList, [], "b".toList])
+      | .text _ => (true, .text "a,b".toList, "a,b".toList, ["a".toList, "b".toList])
+      | _ => (true, .none, [], [])
+    blankLeaf := fun _ => (.none, [], []) }
+
+theorem reimport_needs_leafIdem :
+    ∃ x e, setNative badEnv (.leaf none false 0) x = .ok (e, true) ∧
+      setNative badEnv (.leaf none false 0) (value e) ≠ .ok (e, true) := by
+  refine ⟨.list [], .leaf (.text "a,,b".toList) "a,,b".toList ["a".toList, [], "b".toList], ?_, ?_⟩
+  · simp [setNative, badEnv]
+  · simp [setNative, value, badEnv]
+
 end Flatland.C03.Proofs
